@@ -46,6 +46,7 @@ def rerender(text, rng, style=None):
         if rng.random() < 0.25 and not need and style is None:
             sep = ""
         out.append(sep)
-    head = rng.choice(["", "", "\n", "# leading comment é\n", "\r\n", "  "]) if style in (None, "crlf") else ""
+    # (a leading U+FEFF byte order mark is ignorable in a GraphQL document, and editors on some platforms write one)
+    head = rng.choice(["", "", "\n", "# leading comment é\n", "\r\n", "  ", "\ufeff", "\ufeff\n"]) if style in (None, "crlf") else ""
     tail = rng.choice(["", "\n", "\n\n", "\r\n", " # trailing comment", "\t"]) if style in (None, "crlf") else ""
     return head + "".join(out) + tail
